@@ -10,6 +10,10 @@ func c07Use(idx int, argVar, argVal string) (src, want string, mustFail bool) {
 	src = "@component(\"~comp\", {t: " + argVar + "})"
 	named, def := "", ""
 	slots := vChoice("slots", 5)
+	if slots != 0 {
+		// white space (also CR LF line ends) may stand between the ")" and the first slot
+		src += []string{"", " ", "\n", "\r\n  ", "\t"}[vChoice("gap-before-slots", 5)]
+	}
 	switch slots {
 	case 1, 3, 4:
 		nm := symLetter("slot") // a is declared by the component; b, c, d are not
